@@ -927,6 +927,13 @@ class Evaluator(object):
         return ("set",) + tuple(self.ev(x, st, frame) for x in e.elts)
 
     def ex_Dict(self, e, st, frame):
+        if e.keys and all(k is None for k in e.keys):
+            # {**a, **b}: later entries win
+            vals = [self.ev(v, st, frame) for v in e.values]
+            out = vals[0]
+            for v in vals[1:]:
+                out = ("dictmerge", out, v)
+            return out if len(vals) > 1 else ("mcall", vals[0], "copy", (), ())
         return ("dict",) + tuple(("tuple", self.ev(k, st, frame) if k is not None else ("opaque", "**"), self.ev(v, st, frame)) for k, v in zip(e.keys, e.values))
 
     def ex_Starred(self, e, st, frame):
@@ -1088,6 +1095,8 @@ class Evaluator(object):
                         break
             if fi is not None and name not in BUILTINS:
                 return self.call_function(fi, None, None, args, kwargs, st, frame, node, recv=None)
+            if name == "dict" and len(args) == 1 and list(kwargs) == ["**"]:
+                return ("dictmerge", args[0], kwargs["**"])  # dict(a, **b): b wins
             return ("call", name, tuple(args), tuple(sorted(kwargs.items())))
         if t == "class":
             cname = fv[1]
@@ -1163,6 +1172,11 @@ class Evaluator(object):
             return ("fcall", recv, name, tuple(args), tuple(sorted(kwargs.items())))
         # method of a non-node value (pandas, dict, list ...): pure unless a known mutator
         src_name = node.func.value.id if isinstance(getattr(node, "func", None), ast.Attribute) and isinstance(node.func.value, ast.Name) else None
+        if (name == "update" and len(args) == 1 and not kwargs and src_name is not None and src_name in st.locals and isinstance(recv, tuple) and recv
+                and (recv[0] in ("dictmerge", "dict") or (recv[0] == "mcall" and recv[2] == "copy") or (recv[0] == "call" and recv[1] == "dict"))):
+            # d = a.copy(); d.update(b)  on a dict created in this function: the merge with b winning
+            st.locals[src_name] = ("dictmerge", recv, args[0])
+            return NONE
         if kwargs.get("inplace") == ("bool", True) and src_name is not None and src_name in st.locals and _is_fresh(recv):
             # x.sort_values(..., inplace=True) on an object created in this function: same as x = x.sort_values(...)
             kw2 = dict((k, v) for k, v in kwargs.items() if k != "inplace")
@@ -1187,7 +1201,7 @@ class Evaluator(object):
         rid = next(self._ids)
         ev = Event("call", recv=recv, name=name, args=args, kwargs=kwargs, callee=cands, result=("res", rid), inlined=False)
         self.emit(ev, node, st, frame)
-        self.havoc(st, rid, method=name, cands=cands, recv=recv, frame=frame)
+        self.havoc(st, rid, method=name, cands=cands, recv=recv, frame=frame, args=list(args) + list((kwargs or {}).values()))
         return ("res", rid)
 
     def call_function(self, fi, selfv, host, args, kwargs, st, frame, node, recv=None, via_super=False):
@@ -1198,7 +1212,9 @@ class Evaluator(object):
             rid = next(self._ids)
             ev.result = ("res", rid)
             if fi.cls is not None:
-                self.havoc(st, rid, method=fi.name)
+                # the callee is known: clobber exactly what its effect summary says, seen from the receiver
+                r_ = recv if recv is not None else (selfv if selfv is not None else SELF)
+                self.havoc(st, rid, method=fi.name, cands=[fi], recv=r_, frame=frame, args=list(args) + list((kwargs or {}).values()))
             return ("res", rid)
         # bind parameters
         params = list(fi.params)
@@ -1335,7 +1351,7 @@ class Evaluator(object):
         ev.result = val
         return val
 
-    def havoc(self, st, rid, method=None, everything=False, cands=None, recv=None, frame=None):
+    def havoc(self, st, rid, method=None, everything=False, cands=None, recv=None, frame=None, args=None):
         """Forget what a call may have written.  With callees and receiver known the clobber set is the
         callees' role-relative effect summary translated through the receiver's relation to the anchor
         object; otherwise by field name on every object; `everything` forgets the whole heap."""
@@ -1360,6 +1376,9 @@ class Evaluator(object):
                     groups.add(({"SELF": "S", "PARENT": "S", "ROOT": "S", "CHILD": "C", "OTHER": "O"}[role], f))
                     if role == "OTHER":
                         groups.add(("C", f))
+                        if rel == "OTHER" and args and any(self.ntype(a_, frame) is not None for a_ in args):
+                            # a callee on an unrelated receiver, handed a node, writing to "other" objects: that may be any node we know
+                            groups.add(("S", f))
             else:
                 names = set(f for _, f in eff)
                 groups = set((g, f) for g in "SCO" for f in names)
